@@ -116,6 +116,7 @@ class CallCase(base.CaseBase):
         self.slice = params.get('slice', 'page')
         self.context = params.get('context', 'top')
         self.sort = params.get('sort', False)
+        self.msl = params.get('max_seq_len', 1000)
 
     def pre(self, npos, nkw, w, rw):
         fix = self.params.get('fix')
@@ -138,9 +139,9 @@ class CallCase(base.CaseBase):
             warnings.simplefilter('always')
             try:
                 if self.native:
-                    text = pfbase.native_pformat(value, w, rw, sort_dict_keys=self.sort)
+                    text = pfbase.native_pformat(value, w, rw, sort_dict_keys=self.sort, max_seq_len=self.msl)
                 else:
-                    text = pfbase.ptext(value, w, rw, sort_dict_keys=self.sort)
+                    text = pfbase.ptext(value, w, rw, sort_dict_keys=self.sort, max_seq_len=self.msl)
             except Exception as e:
                 exc = type(e).__name__
                 return self.fail('C17:pformat-raises-' + exc, lambda: repr(e))
@@ -173,12 +174,13 @@ class CallCase(base.CaseBase):
             if len(tree.args) != len(args):
                 return self.fail('C17:positional-argument-count-wrong', describe)
             want = Callee(*args, **dict(kwargs))
-            if not (got.a == want.a and got.k == want.k):
+            if self.msl == 1000 and not (got.a == want.a and got.k == want.k):
                 return self.fail('C17:evaluation-performs-other-call', describe)
             # each argument printed exactly as it would be on its own
             for node, v in list(zip(tree.args, args)) + list(zip([kw.value for kw in tree.keywords], [x for _, x in kwargs])):
                 own = ast.dump(ast.parse('(' + PKG.pformat(v, width=10 ** 6, ribbon_width=10 ** 6,
-                                                             sort_dict_keys=self.sort) + '\n)', mode='eval').body)
+                                                             sort_dict_keys=self.sort,
+                                                             max_seq_len=self.msl) + '\n)', mode='eval').body)
                 if ast.dump(node) != own:
                     return self.fail('C17:argument-not-printed-as-on-its-own', describe)
             return True
@@ -481,6 +483,14 @@ def cases(tier, seed):
                                 'params': {'pool': pool, 'style': style, 'callable': cname, 'fix': list(fx),
                                            'context': 'top' if n % 2 else 'elem', 'slice': 'page'},
                                 'budget': 150.0 if tier == 'quick' else 400.0, 'path_timeout': 30.0})
+    # every argument is printed as on its own also under a small max_seq_len / None
+    for pool in ('mixed', 'hug-dict'):
+        for msl in (1, None):
+            for style in ('call', 'alt-list'):
+                out.append({'name': 'call:%s:%s:class|default|max_seq_len=%r' % (pool, style, msl), 'family': 'call',
+                            'params': {'pool': pool, 'style': style, 'callable': 'class', 'max_seq_len': msl,
+                                       'context': 'top', 'slice': 'default'},
+                            'budget': 150.0, 'path_timeout': 30.0})
     for lib in ('dataclasses', 'attrs'):
         for nf in (1, 2, 3):
             variants = [(False, False)] if tier == 'quick' or nf < 3 else [(False, False), (True, False), (False, True), (True, True)]
